@@ -386,6 +386,10 @@ func Select(a, i *Term) *Term {
 	if a.Op == "constarr" {
 		return a.Args[0]
 	}
+	if a.Op == "ite" && (a.Args[1].Op == "store" || a.Args[2].Op == "store" || a.Args[1].Op == "ite" || a.Args[2].Op == "ite") {
+		// push the read through a merge of heap versions so that read-over-write can fire
+		return Ite(a.Args[0], Select(a.Args[1], i), Select(a.Args[2], i))
+	}
 	return mk("select", a.S.Elem, a, i)
 }
 
